@@ -89,6 +89,9 @@ fn main() {
     };
     let code = match prop.as_str() {
         "C01" => checks::c01::run(&ctx),
+        "C02" => checks::c02::run(&ctx),
+        "C03" => checks::c03::run(&ctx),
+        "C04" => checks::c04::run(&ctx),
         _ => {
             eprintln!("unknown property {prop}");
             2
